@@ -955,6 +955,19 @@ def enc5_shorten_pairs(rng, n):
             op, opb = op_packet(p), op_packet(bare)
             for pm in list(range(1, 81)) + rng.sample(PEER_SAMPLES, 3):
                 out.append((enc_case(pm, 0, [op]), enc_case(pm, 0, [opb])))
+    # deterministic: acknowledgements with many reason codes (the payload that follows the properties has to come
+    # off the budget of the diagnostics), a 20-byte reason string or one user property, every limit 1..80
+    for gen, codes in ((gen_suback, SUBACK_RC), (gen_unsuback, UNSUBACK_RC)):
+        for ncodes in (4, 8, 16):
+            for rs, ups in ((b"r" * 20, []), (None, [(b"k" * 6, b"v" * 8)]), (b"rs", [(b"k", b"v")])):
+                p = gen(rng, status=[codes[i % len(codes)] for i in range(ncodes)])
+                p["reason_string"], p["ups"] = rs, ups
+                bare = copy.deepcopy(p)
+                bare["ups"] = []
+                bare["reason_string"] = None
+                op, opb = op_packet(p), op_packet(bare)
+                for pm in range(1, 81):
+                    out.append((enc_case(pm, 0, [op]), enc_case(pm, 0, [opb])))
     return out
 
 
